@@ -68,12 +68,12 @@ theorem inStoryAt_cases (cs : List Xml) (sid : Key) (j : Nat) (f : List Xml → 
   subst hcs hal
   exact ⟨k, a, x, b, hid, rfl, by simp, hx1, isChild_iff.mpr ⟨hx1, hx2⟩, ha, inStoryAt_split a b x f⟩
 
-theorem inStory_cases (cs : List Xml) (sid : Key) (f : List Xml → Out) (hws : WfKids "story" cs = true) :
+theorem inStory_cases (cs : List Xml) (sid : Key) (f : List Xml → Out) :
     (inStory none cs sid f).err = some .merge ∨
     ∃ key a x b, sid = some key ∧ cs = a ++ x :: b ∧ x ∈ cs ∧ x.tag = "story" ∧
       isChild "story" key x = true ∧ (∀ c ∈ a, isChild "story" key c = false) ∧
       inStory none cs sid f = ⟨a ++ x.withKids (f x.kids).kids :: b, (f x.kids).warns, (f x.kids).err⟩ := by
-  rw [inStory_ok cs sid f hws]
+  rw [inStory_ok cs sid f]
   cases hl : locate "story" cs sid with
   | none => left; rfl
   | some j => right; exact inStoryAt_cases cs sid j f hl
@@ -95,18 +95,7 @@ theorem insertDedup_closed_end (ex : List Key) (ss cs : List Xml) (ws : List War
   have := insertDedup_closed ex ss cs [] ws
   simpa using this
 
-theorem wfRO_unpack_w {d : Xml} (h : WfRO d = true) :
-    ∃ rc, rcOf d = some rc ∧ WfKids "story" rc.kids = true ∧
-      ∀ s ∈ rc.kids, s.tag = "story" → WfKids "item" s.kids = true := by
-  unfold WfRO at h
-  cases hrc : rcOf d with
-  | none => simp [hrc] at h
-  | some rc =>
-    simp only [hrc, Bool.and_eq_true, List.all_eq_true, Bool.or_eq_true, bne_iff_ne, ne_eq] at h
-    refine ⟨rc, rfl, h.1, ?_⟩
-    intro s hs ht
-    rcases h.2 s hs with h' | h'
-    · exact absurd ht h'
-    · exact h'
+theorem wfRO_unpack_w {d : Xml} (h : WfRO d = true) : ∃ rc, rcOf d = some rc :=
+  Option.isSome_iff_exists.mp h
 
 end Mrm
